@@ -221,4 +221,34 @@ theorem signed_digits_agree' (neg : Bool) (ds : List Nat) (hne : ds ≠ []) (hd 
     unfold signed at a b
     rw [a, b]
 
+
+/-- Whenever the mechanism falls through to `strconv.ParseFloat` (no integer parse, not "-0", no underscore, no radix
+prefix, no hex-float prefix, not one of ParseFloat's special words) and the text is not an Infinity form, its answer
+is the spec recogniser's: both read the text with the same decimal grammar. -/
+theorem parseFloat_path_agree' (t : List Nat) (hne : t.isEmpty = false)
+    (hinf : (t == str "Infinity" || t == str "+Infinity") = false) (hminf : (t == str "-Infinity") = false)
+    (hsti : stringToInt t = none) (hm0 : (t == str "-0") = false) (hus : t.contains 0x5F = false)
+    (hrp : radixPrefix t = 0)
+    (hhex : ∀ x r, (splitSign t).2 = 0x30 :: x :: r → ¬ (x = 0x78 ∨ x = 0x58))
+    (hsp : goSpecial t = false) (hbinf : ((splitSign t).2 == str "Infinity") = false) :
+    mechT t = specT t := by
+  have hm : mechT t = toFloat.tail t := by
+    simp only [mechT, hne, hinf, hminf, hsti, Bool.false_eq_true, if_false]
+    simp only [toFloat, hm0, hus, hrp, Bool.false_eq_true, if_false, ne_eq, not_true_eq_false]
+    split
+    · rename_i x r heq
+      simp only [hhex x r heq, if_false]
+    · rfl
+  have hs : specT t = specT.dec t := by
+    unfold specT
+    simp only [hne, Bool.false_eq_true, if_false]
+    split
+    · rename_i p d ds
+      have : radixOfLetter p = 0 := hrp
+      simp only [this, ne_eq, not_true_eq_false, if_false]
+    · rfl
+  rw [hm, hs]
+  simp only [toFloat.tail, specT.dec, hsp, hbinf, Bool.false_eq_true, if_false]
+
+
 end GojaModel.C05.StrNum
